@@ -624,8 +624,8 @@ static Plan make_C18(u64 seed, int variant) {
         g.inject((int)g.rng.below(3), 7); g.enable(0, 7);
         g.create(0, 0, g.rng.below(8), g.secret_kind(), {g.clock_reading()});
         if (g.live(0, 0)) g.free_seed(0, 0);
-        static const int counts[] = {255, 256, 257, 511, 512, 513, 768, 65536 / 64};
-        int n = counts[g.rng.below(8)], gen0 = (int)g.rng.below(3);
+        static const int counts[] = {255, 256, 257, 511, 512, 513};
+        int n = counts[g.rng.below(6)], gen0 = (int)g.rng.below(3);
         for (int i = 0; i < n; ++i) { Op& o = g.emit(OP_INJECT, 1, 0); o.a = (u64)((gen0 + i) % 3); o.b = (i == n - 1) ? 7 : g.rng.below(8); }
         // make sure the last injection differs from the one task 0 worked under
         g.create(0, 1, g.rng.below(8), g.secret_kind(), {g.clock_reading()});
